@@ -143,6 +143,29 @@ def libpass_hashers():
             ("libpass.BcryptHasher", BcryptHasher(rounds=4), "exact72"), ("libpass.BcryptSHA256Hasher", BcryptSHA256Hasher(rounds=4), "exact")]
 
 
+def disabled_marker_edges(chk, name, h):
+    """disabled-account hashers configured with their own marker (text or bytes): hash() is that marker as ASCII text, identified, and nothing verifies"""
+    if "marker" not in getattr(h, "setting_kwds", ()):
+        return
+    for marker in ("*", "!", "*LK*", b"*LK*", b"!", "!locked"):
+        chk.count((name, "marker", repr(marker)))
+        chk.action("disabled-marker")
+        try:
+            hh = h.using(marker=marker)
+            got = hh.hash("pw")
+            want = marker.decode() if isinstance(marker, bytes) else marker
+            facts = (got == want and isinstance(got, str), hh.identify(got), hh.verify("pw", got), hh.verify("", got), hh.verify(want, got))
+            d2 = hh.disable("$1$abcdefgh$IQtUouv7y7Q9dRWkQEPCc.") if hasattr(hh, "disable") else want + "x"
+            facts += (isinstance(d2, str) and d2.startswith(want), hh.verify("pw", d2))
+        except Exception as e:
+            facts = f"{type(e).__name__}: {e}"[:100]
+        chk.evaluations += 5
+        if facts != (True, True, False, False, False, True, False):
+            chk.violation(f"{name}:edge:marker", f"{name}.using(marker={marker!r}): hash()==marker as text / identify / verify(pw) / verify('') / verify(marker) / disable(hash) keeps marker / verify = {facts}",
+                          {"hasher": name, "marker": repr(marker)})
+            break
+
+
 def edge_passwords(chk, name, h, w, klass, flags):
     """the shortest passwords (p = <<>>, <<a>> and the near miss <<a, b>> of the model) under EVERY ident / variant of the hasher,
     without the filler prefix the truncating classes otherwise get"""
@@ -444,6 +467,8 @@ def run_shared(chk, focus):
         klass, limit, flags = TABLE.get(name, DEFAULT)
         w = getattr(h, "wrapped", h)
         if focus == "C01":
+            if klass == "dis":
+                disabled_marker_edges(chk, name, h)
             edge_passwords(chk, name, h, w, klass, flags)
             if klass == "exact":          # (case-folding formats treat text and bytes differently by design)
                 encoding_edges(chk, name, h, flags)
@@ -509,13 +534,17 @@ def run_shared(chk, focus):
                 if name == "cisco_type7":
                     settings = dict(salt=rnd.choice([rnd.randrange(53), rnd.randrange(16, 53), 52]))
                 elif name == "fshp":
-                    settings = dict(cheap_settings(name, h), variant=rnd.randrange(4))
+                    v_ = rnd.randrange(4)
+                    nm_ = ("sha1", "sha256", "sha384", "sha512")[v_]
+                    settings = dict(cheap_settings(name, h), variant=rnd.choice([v_, v_, str(v_), nm_, nm_.encode()]))      # number or documented alias, text or bytes
                 elif getattr(w, "ident_values", None) and "ident" in h.setting_kwds and rnd.random() < .5:
                     settings = dict(cheap_settings(name, h), ident=rnd.choice([i for i in w.ident_values if i not in ("$2x$", "$2$")]))
+                    if name == "bcrypt_sha256" and settings["ident"] != "$2b$":
+                        settings["version"] = 1           # (version 2 is defined for $2b$ only)
                 try:
                     hh = h.using(**settings, **({"truncate_error": True} if te else {})) if (settings or te) else h
                 except Exception as e:
-                    chk.uncovered.append(f"{name}: using() failed: {e}"[:100])
+                    chk.violation(f"{name}:using:{type(e).__name__}", f"{name}.using({settings}) - admissible settings - raised {type(e).__name__}: {e}", {"hasher": name, "settings": repr(settings)})
                     break
                 via_ctx = te and rnd.random() < .5
                 detail_how = ""
